@@ -92,7 +92,7 @@ OrderIrrelevant == (TrackAcc /\ pc = 0) => Cached(St) = Closure(acc)
 \* in the user phase every cached value is good and exactly the consumed lumps are empty
 UserPhaseInv == (pc = 0 /\ saves = 0) =>
     /\ \A v \in Cached(St) : cache[v] = "good"
-    /\ \A l \in Lumps : raw[l] = (IF \E v \in Cached(St) : l \in ClearsF[v] THEN "cleared" ELSE "orig")
+    /\ \A l \in Lumps : raw[l] = (IF \E v \in Cached(St) : l \in ClearsF[v] \ EmptyLumps THEN "cleared" ELSE "orig")
 \* the step-wise save() equals the functional one (the operator the trace validator uses)
 SaveRefines == /\ (pc \in 1..NOrd) => SaveFrom(St, pc) = goal
                /\ (pc = NOrd + 1) => St = goal
